@@ -40,9 +40,11 @@ End Qualified.
 (* declarations are attributes without a namespace *)
 Definition plain_decl (decl : list attr) : bool := forallb (fun a : attr => null (fst (fst a))) decl.
 
-(* a prefix table given as an association list (what the harness passes) *)
+(* a prefix table given as an association list (what the harness passes); a namespace without an entry gets no prefix:
+   that is how _required_space measures nodes that follow the serialized sub-tree in the document and are in a
+   namespace the sub-tree does not use (self._prefixes.get(namespace, ""), e97da64) *)
 Fixpoint pf_of (tbl : list (str * str)) (ns : str) : str :=
   match tbl with
-  | [] => [63; 58]%N
+  | [] => []
   | (n, p) :: r => if str_eqb n ns then p else pf_of r ns
   end.
